@@ -15,10 +15,10 @@ type Node struct {
 	IsL  bool
 }
 
-func A(s string) *Node           { return &Node{Atom: s} }
-func N(i int) *Node              { return &Node{Atom: strconv.Itoa(i)} }
-func I64(i int64) *Node          { return &Node{Atom: strconv.FormatInt(i, 10)} }
-func L(items ...*Node) *Node     { return &Node{List: items, IsL: true} }
+func A(s string) *Node       { return &Node{Atom: s} }
+func N(i int) *Node          { return &Node{Atom: strconv.Itoa(i)} }
+func I64(i int64) *Node      { return &Node{Atom: strconv.FormatInt(i, 10)} }
+func L(items ...*Node) *Node { return &Node{List: items, IsL: true} }
 func K(kw string, items ...*Node) *Node {
 	return &Node{List: append([]*Node{A(kw)}, items...), IsL: true}
 }
